@@ -86,6 +86,11 @@ def cases(tier, seed):
     for a in MENU:
         for f in HIST_FILES:
             yield {"k": "repeat", "a": a, "file": f}
+    # a template that is one ready-made block comment, values with and without the comment's terminator
+    for field in ("copyright", "contributor"):
+        for value in ("Kim Corp", "Kim */ Corp", "Kim Corp */", "*/ Kim Corp"):
+            for fname in ("f.c", "g.css", "h.java"):
+                yield {"k": "ctpl", "field": field, "value": value, "file": fname}
     # a file annotated in n earlier years with one prefix, then --merge-copyrights with another prefix, repeated
     for p1 in PREFIXES:
         for p2 in PREFIXES:
@@ -359,6 +364,22 @@ def ev_repeat(c) -> R:
     return r
 
 
+def ev_ctpl(c) -> R:
+    """A pre-commented template: the tool does not build the comment itself, so nothing stops a value from ending the comment early.  Either the
+    value is refused, or the header is found again by the next identical run."""
+    r = R()
+    root = fresh_dir("c10")
+    materialise(root, {c["file"]: "body line;\n", **annot.template_recipe(["cblock.commented"])})
+    p = root / c["file"]
+    argv = ["--license", "MIT", "--year", "2020", "--template", "cblock"]
+    argv += ["--copyright", c["value"]] if c["field"] == "copyright" else ["--copyright", "Jane Doe", "--contributor", c["value"]]
+    sig = "commented-template|value-holds-terminator" if "*/" in c["value"] else "commented-template|plain-value"
+    res = twice(r, root, argv, [p], f"{c['file']} with a template that is one block comment, {c['field']} {c['value']!r}", sig, n=3)
+    r.outcome = "n/a" if res is None else f"ctpl-exit{res.exit_code}"
+    r.tags.append("ctpl")
+    return r
+
+
 def ev_merge(c) -> R:
     r = R()
     root = fresh_dir("c10")
@@ -376,7 +397,7 @@ def ev_merge(c) -> R:
     return r
 
 
-_EV = {"merge": ev_merge, "type": ev_type, "style": ev_style, "pair": ev_pair, "repeat": ev_repeat, "tail": ev_tail, "only": ev_only, "linebreak": ev_linebreak}
+_EV = {"ctpl": ev_ctpl, "merge": ev_merge, "type": ev_type, "style": ev_style, "pair": ev_pair, "repeat": ev_repeat, "tail": ev_tail, "only": ev_only, "linebreak": ev_linebreak}
 
 
 def evaluate(c) -> R:
